@@ -9,39 +9,9 @@ Section All.
   Variable ll_multinom ll_plain : list R -> option R.
   Notation G := (ll_guard ll_multinom ll_plain).
 
-  (** NLopt_mod.opt as it stands, log_opt=False *)
-  Theorem opt_contract (O : optimiser R) p0 lower upper fixed multinom w :
-    opt ll_multinom ll_plain O p0 lower upper fixed multinom false = Some w ->
-    contract true (w_lo w) (w_hi w) (w_start w)
-             (fun x => fst (opt_objective ll_multinom ll_plain multinom fixed false x)) (w_oracle w) ->
-    agrees (w_x w) fixed /\
-    (exists xf, w_x w = project_up 0 xf fixed /\ box_ok (w_lo w) (w_hi w) xf = true) /\
-    G multinom (w_x w) = w_f w /\
-    G multinom (subst_fixed p0 fixed) <= w_f w /\
-    hd_error (w_evals w) = Some (subst_fixed p0 fixed).
-  Proof.
-    intros Hw Hc. unfold opt in Hw.
-    destruct (opt_gen_inv _ _ _ _ _ _ _ _ _ _ _ _ Hw) as (lo & hi & d0 & _ & _ & Hd & _).
-    destruct (opt_gen_contract ll_multinom ll_plain false false O p0 lower upper fixed multinom false w d0 Hw Hd) as (H1 & (xf & H2 & H2' & _) & H3 & H4 & H5); auto.
-    { discriminate. }
-    repeat split; auto. exists xf; auto.
-  Qed.
-
-  (** the same with the free entries related to the user's bounds index by index *)
-  Theorem opt_free_entries_within_bounds (O : optimiser R) p0 lower upper fx multinom w :
-    opt ll_multinom ll_plain O p0 lower upper (Some fx) multinom false = Some w ->
-    contract true (w_lo w) (w_hi w) (w_start w)
-             (fun x => fst (opt_objective ll_multinom ll_plain multinom (Some fx) false x)) (w_oracle w) ->
-    free_within fx (dflt_bounds lower (length p0)) (dflt_bounds upper (length p0)) (w_x w).
-  Proof.
-    intros Hw Hc. unfold opt in Hw.
-    destruct (opt_gen_inv _ _ _ _ _ _ _ _ _ _ _ _ Hw) as (lo & hi & d0 & _ & _ & Hd & _).
-    eapply opt_free_within; eauto. discriminate.
-  Qed.
-
-  (** NLopt_mod.opt with the repaired line, log_opt on or off *)
-  Theorem opt_repaired_contract (O : optimiser R) p0 lower upper fixed multinom lg w d0 :
-    opt_repaired ll_multinom ll_plain O p0 lower upper fixed multinom lg = Some w ->
+  (** NLopt_mod.opt as it stands (both lines repaired), log_opt on or off *)
+  Theorem opt_contract (O : optimiser R) p0 lower upper fixed multinom lg w d0 :
+    opt ll_multinom ll_plain O p0 lower upper fixed multinom lg = Some w ->
     project_down p0 fixed = Some d0 -> (lg = true -> positive d0) ->
     contract true (w_lo w) (w_hi w) (w_start w)
              (fun x => fst (opt_objective ll_multinom ll_plain multinom fixed lg x)) (w_oracle w) ->
@@ -51,8 +21,40 @@ Section All.
     G multinom (subst_fixed p0 fixed) <= w_f w /\
     hd_error (w_evals w) = Some (subst_fixed p0 fixed).
   Proof.
-    intros Hw Hd Hp Hc. unfold opt_repaired in Hw.
+    intros Hw Hd Hp Hc. unfold opt in Hw.
     destruct (opt_gen_contract ll_multinom ll_plain true true O p0 lower upper fixed multinom lg w d0 Hw Hd) as (H1 & (xf & H2 & H2' & _) & H3 & H4 & H5); auto.
+    repeat split; auto. exists xf; auto.
+  Qed.
+
+  (** the same with the free entries related to the user's bounds index by index *)
+  Theorem opt_free_entries_within_bounds (O : optimiser R) p0 lower upper fx multinom lg w d0 :
+    opt ll_multinom ll_plain O p0 lower upper (Some fx) multinom lg = Some w ->
+    project_down p0 (Some fx) = Some d0 ->
+    (lg = true -> positive d0 /\ Forall pos_opt (dflt_bounds lower (length p0)) /\ Forall pos_opt (dflt_bounds upper (length p0))) ->
+    contract true (w_lo w) (w_hi w) (w_start w)
+             (fun x => fst (opt_objective ll_multinom ll_plain multinom (Some fx) lg x)) (w_oracle w) ->
+    free_within fx (dflt_bounds lower (length p0)) (dflt_bounds upper (length p0)) (w_x w).
+  Proof.
+    intros Hw Hd Hlg Hc. unfold opt in Hw.
+    eapply opt_free_within; eauto.
+    all: try (intros E; destruct (Hlg E) as (? & ? & ?); auto).
+  Qed.
+
+  (** the snapshot's opt with log_opt=False was already right *)
+  Theorem opt_snapshot_nolog_contract (O : optimiser R) p0 lower upper fixed multinom w :
+    opt_snapshot ll_multinom ll_plain O p0 lower upper fixed multinom false = Some w ->
+    contract true (w_lo w) (w_hi w) (w_start w)
+             (fun x => fst (opt_objective ll_multinom ll_plain multinom fixed false x)) (w_oracle w) ->
+    agrees (w_x w) fixed /\
+    (exists xf, w_x w = project_up 0 xf fixed /\ box_ok (w_lo w) (w_hi w) xf = true) /\
+    G multinom (w_x w) = w_f w /\
+    G multinom (subst_fixed p0 fixed) <= w_f w /\
+    hd_error (w_evals w) = Some (subst_fixed p0 fixed).
+  Proof.
+    intros Hw Hc. unfold opt_snapshot in Hw.
+    destruct (opt_gen_inv _ _ _ _ _ _ _ _ _ _ _ _ Hw) as (lo & hi & d0 & _ & _ & Hd & _).
+    destruct (opt_gen_contract ll_multinom ll_plain false false O p0 lower upper fixed multinom false w d0 Hw Hd) as (H1 & (xf & H2 & H2' & _) & H3 & H4 & H5); auto.
+    { discriminate. }
     repeat split; auto. exists xf; auto.
   Qed.
 End All.
@@ -60,8 +62,8 @@ End All.
 (** which wrappers the generic scipy theorem covers *)
 Lemma coherent_wrappers :
   coherent cfg_optimize /\ coherent cfg_optimize_log /\ coherent cfg_optimize_log_lbfgsb /\ coherent cfg_optimize_log_fmin /\
-  coherent cfg_optimize_log_powell /\ coherent cfg_optimize_cons /\ coherent cfg_optimize_lbfgsb_repaired /\ coherent cfg_optimize_log_lbfgsb_repaired /\
-  ~ coherent cfg_optimize_lbfgsb.
+  coherent cfg_optimize_log_powell /\ coherent cfg_optimize_cons /\ coherent cfg_optimize_lbfgsb /\ coherent cfg_optimize_log_lbfgsb_snapshot /\
+  ~ coherent cfg_optimize_lbfgsb_snapshot.
 Proof. unfold coherent; cbn. repeat split; try reflexivity. intros [H _]; discriminate. Qed.
 
 (** non-vacuity: a call of opt with one fixed parameter whose oracle honours the contract *)
